@@ -828,3 +828,279 @@ Lemma src_armed_can_fire m : src_mech = Some m ->
 Proof.
   intros Hm. rewrite src_is_per_arm in Hm. inversion Hm; subst m. exact perarm_armed_can_fire.
 Qed.
+
+(* ==== the Shared mechanism outside the refuted region ====
+   If no arm/stop happens while some goroutine has not yet reached its select (the lost-stop
+   window) or is between its time.After arm and its flag update (expiry racing the call),
+   the Shared mechanism satisfies the monitor too. *)
+Definition pc_done (p : pc) : bool :=
+  match p with Stopped | Delivering | Fired | Dropped => true | _ => false end.
+
+(* model-only part of the invariant *)
+Record SX (s : tstate) : Prop := {
+  sx_open : forall g r, nth_error (gs s) g = Some r -> g_closed r = false;
+  sx_others : forall g r, nth_error (gs s) g = Some r -> current_running s g = false -> pc_done (g_pc r) = true;
+  sx_run : running s = true ->
+           exists g r, cur s = Some g /\ nth_error (gs s) g = Some r /\ pc_waiting (g_pc r) = true
+}.
+
+Lemma SX_init : SX t_init.
+Proof. constructor; simpl; intros; try discriminate; destruct g; discriminate. Qed.
+
+Lemma current_running_cur s g : current_running s g = true -> running s = true /\ cur s = Some g.
+Proof.
+  unfold current_running. intros H. apply andb_true_iff in H as [R C].
+  apply opt_nat_eqb_eq in C. auto.
+Qed.
+
+Lemma current_running_intro s g : running s = true -> cur s = Some g -> current_running s g = true.
+Proof. intros R C. unfold current_running. rewrite R, C. simpl. apply Nat.eqb_refl. Qed.
+
+(* an internal move of goroutine c that keeps flag and channel *)
+Lemma sx_set_pc s c p r :
+  SX s -> nth_error (gs s) c = Some r ->
+  (current_running s c = true -> pc_waiting p = true) ->
+  (current_running s c = false -> pc_done p = true) ->
+  SX (with_gs s (set_pc (gs s) c p)).
+Proof.
+  intros X N HW HD. constructor; simpl.
+  - intros g r' Hr'. rewrite set_pc_pw, nth_pw in Hr'. destruct (Nat.eqb g c) eqn:E.
+    + apply Nat.eqb_eq in E. subst g. rewrite N in Hr'. simpl in Hr'. inversion Hr'. simpl.
+      apply (sx_open _ X c r N).
+    + apply (sx_open _ X g r' Hr').
+  - intros g r' Hr' CR.
+    assert (current_running s g = false) as CR' by exact CR.
+    rewrite set_pc_pw, nth_pw in Hr'. destruct (Nat.eqb g c) eqn:E.
+    + apply Nat.eqb_eq in E. subst g. rewrite N in Hr'. simpl in Hr'. inversion Hr'. simpl.
+      apply HD. exact CR'.
+    + apply (sx_others _ X g r' Hr' CR').
+  - intros R. destruct (sx_run _ X R) as (g & r0 & C & N0 & W).
+    exists g. rewrite set_pc_pw, nth_pw. destruct (Nat.eqb g c) eqn:E.
+    + apply Nat.eqb_eq in E. subst c. rewrite N. simpl. eexists. split; [exact C|]. split; [reflexivity|].
+      simpl. apply HW. apply current_running_intro; assumption.
+    + eexists. eauto.
+Qed.
+
+(* the current goroutine c leaves (token taken, or timeout committed): flag cleared *)
+Lemma sx_clear s c p r :
+  SX s -> nth_error (gs s) c = Some r -> current_running s c = true -> pc_done p = true ->
+  SX {| running := false; ttype := ttype s; cur := cur s; gs := set_pc (gs s) c p |}.
+Proof.
+  intros X N CR D. destruct (current_running_cur _ _ CR) as [R C]. constructor; simpl.
+  - intros g r' Hr'. rewrite set_pc_pw, nth_pw in Hr'. destruct (Nat.eqb g c) eqn:E.
+    + apply Nat.eqb_eq in E. subst g. rewrite N in Hr'. simpl in Hr'. inversion Hr'. simpl.
+      apply (sx_open _ X c r N).
+    + apply (sx_open _ X g r' Hr').
+  - intros g r' Hr' _. rewrite set_pc_pw, nth_pw in Hr'. destruct (Nat.eqb g c) eqn:E.
+    + apply Nat.eqb_eq in E. subst g. rewrite N in Hr'. simpl in Hr'. inversion Hr'. simpl. exact D.
+    + apply (sx_others _ X g r' Hr'). unfold current_running. rewrite R, C. simpl.
+      rewrite Nat.eqb_sym. exact E.
+  - intros; discriminate.
+Qed.
+
+Lemma at_select_exists l g r : nth_error l g = Some r -> g_pc r = AtSelect -> any_at_select l = true.
+Proof.
+  intros N P. unfold any_at_select. apply existsb_exists. exists r. split.
+  - eapply nth_error_In; eauto.
+  - rewrite P. reflexivity.
+Qed.
+
+Lemma calm_nth s g r : calm s = true -> nth_error (gs s) g = Some r ->
+  g_pc r <> Spawned /\ g_pc r <> Expired.
+Proof.
+  intros C N. unfold calm in C. rewrite forallb_forall in C.
+  specialize (C r (nth_error_In _ _ N)). apply negb_true_iff in C. apply orb_false_iff in C as [C1 C2].
+  split; intros E; rewrite E in *; discriminate.
+Qed.
+
+Lemma flags_pw_l' gl ml c fr :
+  flags_ok gl ml ->
+  (forall r, nth_error gl c = Some r ->
+     pc_fired (g_pc (fr r)) = pc_fired (g_pc r) /\ pc_delivered (g_pc (fr r)) = pc_delivered (g_pc r)) ->
+  flags_ok (pw gl c fr) ml.
+Proof.
+  intros F H g r k Hr Hk. rewrite nth_pw in Hr.
+  destruct (Nat.eqb g c) eqn:G.
+  - apply Nat.eqb_eq in G. subst g.
+    destruct (nth_error gl c) as [r0|] eqn:Er; [|discriminate].
+    simpl in Hr. inversion Hr; subst. destruct (H r0 eq_refl) as [H1 H2]. rewrite H1, H2.
+    apply (F c); assumption.
+  - apply (F g); assumption.
+Qed.
+
+(* stopHandshakeTimer (Shared) in a calm state *)
+Lemma shared_stop_inv strict b s ms to s1 :
+  Inv s ms -> SX s -> calm s = true -> do_stop Shared s to = Some s1 ->
+  running s1 = false /\ cur s1 = cur s /\ length (gs s1) = length (gs s) /\
+  flags_ok (gs s1) (kill_live strict b ms) /\ SX s1.
+Proof.
+  intros I X Cm H. unfold do_stop in H. destruct (running s) eqn:R; simpl in H.
+  - destruct (sx_run _ X R) as (g0 & r0 & C0 & N0 & W0).
+    destruct (calm_nth s g0 r0 Cm N0) as [NS NE].
+    assert (g_pc r0 = AtSelect) as P0 by (destruct (g_pc r0); try discriminate; congruence).
+    destruct to as [g|].
+    + destruct (nth_error (gs s) g) as [r|] eqn:N; [|discriminate].
+      destruct (pc_eqb (g_pc r) AtSelect) eqn:P; [|discriminate]. apply pc_eqb_eq in P.
+      inversion H; subst s1; clear H. simpl.
+      assert (current_running s g = true) as CR.
+      { destruct (current_running s g) eqn:CR; [reflexivity|].
+        pose proof (sx_others _ X g r N CR) as D. rewrite P in D. discriminate. }
+      split; [reflexivity|]. split; [reflexivity|]. split; [rewrite set_pc_pw; apply pw_length|]. split.
+      * apply kill_live_flags. rewrite set_pc_pw. apply flags_pw_l'; [apply (inv_flags _ _ I)|].
+        intros r' Hr'. rewrite N in Hr'. inversion Hr'; subst r'. simpl. rewrite P. split; reflexivity.
+      * apply (sx_clear s g Stopped r X N CR). reflexivity.
+    + rewrite (at_select_exists _ g0 r0 N0 P0) in H. discriminate.
+  - destruct to; [discriminate|]. inversion H; subst s1; clear H.
+    split; [exact R|]. split; [reflexivity|]. split; [reflexivity|]. split; [|exact X].
+    apply kill_live_flags. apply (inv_flags _ _ I).
+Qed.
+
+(* what a completed stop leaves behind, for the monitor's stop ... *)
+Lemma stop_post_inv strict s ms s1 :
+  Inv s ms -> running s1 = false -> cur s1 = cur s -> length (gs s1) = length (gs s) ->
+  flags_ok (gs s1) (kill_live strict true ms) ->
+  Inv s1 {| m_live := None; m_g := kill_live strict true ms |}.
+Proof.
+  intros I R1 C1 L1 F1. constructor; simpl.
+  - rewrite kill_live_length, L1. apply (inv_len _ _ I).
+  - rewrite R1. reflexivity.
+  - intros g Hg. rewrite C1 in Hg. rewrite L1. apply (inv_cur _ _ I). exact Hg.
+  - exact F1.
+  - intros g k Hr. congruence.
+Qed.
+
+(* ... and for the monitor's arm *)
+Lemma arm_post_inv strict s ms s1 ty :
+  Inv s ms -> running s1 = false -> cur s1 = cur s -> length (gs s1) = length (gs s) ->
+  flags_ok (gs s1) (kill_live strict false ms) ->
+  Inv {| running := true; ttype := ty; cur := Some (length (gs s1));
+         gs := gs s1 ++ [{| g_pc := Spawned; g_closed := false |}] |}
+      {| m_live := Some (length (m_g ms)); m_g := kill_live strict false ms ++ [k_fresh] |}.
+Proof.
+  intros I R1 C1 L1 F1.
+  assert (length (gs s1) = length (kill_live strict false ms)) as LL
+    by (rewrite kill_live_length, L1; apply (inv_len _ _ I)).
+  constructor; simpl.
+  - rewrite !app_length, LL. reflexivity.
+  - rewrite L1, (inv_len _ _ I). reflexivity.
+  - intros g Hg. inversion Hg. rewrite app_length. simpl. lia.
+  - apply flags_app; assumption.
+  - intros g k _ Hg Hk. inversion Hg; subst g.
+    apply nth_app_cases in Hk. destruct Hk as [Hk|[_ Hk]].
+    + assert (length (gs s1) < length (kill_live strict false ms))
+        by (apply nth_error_Some; congruence). lia.
+    + subst k. reflexivity.
+Qed.
+
+Lemma sx_after_arm s1 ty :
+  SX s1 -> running s1 = false ->
+  SX {| running := true; ttype := ty; cur := Some (length (gs s1));
+        gs := gs s1 ++ [{| g_pc := Spawned; g_closed := false |}] |}.
+Proof.
+  intros X R1. constructor; simpl.
+  - intros g r Hr. apply nth_app_cases in Hr. destruct Hr as [Hr|[_ Hr]].
+    + apply (sx_open _ X g r Hr).
+    + subst r. reflexivity.
+  - intros g r Hr CR. apply nth_app_cases in Hr. destruct Hr as [Hr|[Hg Hr]].
+    + apply (sx_others _ X g r Hr). unfold current_running. rewrite R1. reflexivity.
+    + subst g. unfold current_running in CR. simpl in CR. rewrite Nat.eqb_refl in CR. discriminate.
+  - intros _. exists (length (gs s1)). eexists. split; [reflexivity|].
+    split; [rewrite nth_error_app2 by lia; rewrite Nat.sub_diag; reflexivity|reflexivity].
+Qed.
+
+(* goroutine steps of Shared are steps of PerArm once the invariant is known *)
+Lemma shared_internal_is_perarm s l s' :
+  SX s -> is_op l = false -> tstep Shared s l = Some s' -> tstep PerArm s l = Some s'.
+Proof.
+  intros X O H. destruct l as [ty d to|to|g|g|g|g]; simpl in *; try discriminate; try exact H.
+  - destruct (nth_error (gs s) g) as [r|]; [|discriminate].
+    destruct (g_pc r); try discriminate; exact H.
+  - destruct (nth_error (gs s) g) as [r|] eqn:N; [|discriminate].
+    destruct (pc_eqb (g_pc r) Expired) eqn:P; [|discriminate]. simpl in H. apply pc_eqb_eq in P.
+    destruct (current_running s g) eqn:CR; [exact H|].
+    pose proof (sx_others _ X g r N CR) as D. rewrite P in D. discriminate.
+Qed.
+
+Lemma shared_internal_sx s l s' :
+  SX s -> is_op l = false -> tstep Shared s l = Some s' -> SX s'.
+Proof.
+  intros X O H. destruct l as [ty d to|to|g|g|g|g]; simpl in *; try discriminate.
+  - (* advance *)
+    destruct (nth_error (gs s) g) as [r|] eqn:N; [|discriminate].
+    destruct (g_pc r) eqn:P; try discriminate.
+    + inversion H; subst s'. apply (sx_set_pc s g AtSelect r X N); [reflexivity|].
+      intros CR. pose proof (sx_others _ X g r N CR) as D. rewrite P in D. discriminate.
+    + rewrite (sx_open _ X g r N) in H. discriminate.
+  - (* expire *)
+    destruct (nth_error (gs s) g) as [r|] eqn:N; [|discriminate].
+    destruct (pc_eqb (g_pc r) AtSelect) eqn:P; [|discriminate]. apply pc_eqb_eq in P.
+    inversion H; subst s'. apply (sx_set_pc s g Expired r X N); [reflexivity|].
+    intros CR. pose proof (sx_others _ X g r N CR) as D. rewrite P in D. discriminate.
+  - (* fire *)
+    destruct (nth_error (gs s) g) as [r|] eqn:N; [|discriminate].
+    destruct (pc_eqb (g_pc r) Expired) eqn:P; [|discriminate]. apply pc_eqb_eq in P. simpl in H.
+    inversion H; subst s'. apply (sx_clear s g Delivering r X N); [|reflexivity].
+    destruct (current_running s g) eqn:CR; [reflexivity|].
+    pose proof (sx_others _ X g r N CR) as D. rewrite P in D. discriminate.
+  - (* deliver *)
+    destruct (nth_error (gs s) g) as [r|] eqn:N; [|discriminate].
+    destruct (pc_eqb (g_pc r) Delivering) eqn:P; [|discriminate]. apply pc_eqb_eq in P.
+    inversion H; subst s'. apply (sx_set_pc s g Fired r X N); [|reflexivity].
+    intros CR. destruct (current_running_cur _ _ CR) as [R C].
+    destruct (sx_run _ X R) as (g0 & r0 & C0 & N0 & W0).
+    rewrite C in C0. inversion C0; subst g0. rewrite N in N0. inversion N0; subst r0.
+    rewrite P in W0. discriminate.
+Qed.
+
+Lemma shared_step strict s ms l s' :
+  Inv s ms -> SX s -> (is_op l = true -> calm s = true) -> tstep Shared s l = Some s' ->
+  snd (mstep strict ms l) = [] /\ Inv s' (fst (mstep strict ms l)) /\ SX s'.
+Proof.
+  intros I X Cm H. destruct (is_op l) eqn:O.
+  - specialize (Cm eq_refl). destruct l as [ty d to|to|g|g|g|g]; try discriminate; simpl in H.
+    + unfold do_arm in H. destruct (do_stop Shared s to) as [s1|] eqn:S; [|discriminate].
+      inversion H; subst s'; clear H.
+      destruct (shared_stop_inv strict false s ms to s1 I X Cm S) as (R1 & C1 & L1 & F1 & X1).
+      simpl. split; [reflexivity|]. split.
+      * apply (arm_post_inv strict s ms s1 ty); assumption.
+      * apply sx_after_arm; assumption.
+    + destruct (shared_stop_inv strict true s ms to s' I X Cm H) as (R1 & C1 & L1 & F1 & X1).
+      simpl. split; [reflexivity|]. split; [|exact X1].
+      apply (stop_post_inv strict s ms s'); assumption.
+  - pose proof (shared_internal_is_perarm s l s' X O H) as HP.
+    destruct (perarm_step strict s ms l s' I HP) as [C I'].
+    split; [exact C|]. split; [exact I'|]. eapply shared_internal_sx; eauto.
+Qed.
+
+Lemma shared_run strict l : forall s ms s',
+  Inv s ms -> SX s -> ops_calm Shared s l = true -> exec Shared s l = Some s' ->
+  snd (mrun strict ms l) = [].
+Proof.
+  induction l as [|a l IH]; intros s ms s' I X Cm H; simpl in *; [reflexivity|].
+  destruct (tstep Shared s a) as [s1|] eqn:T; [|discriminate].
+  apply andb_true_iff in Cm as [Ca Cl].
+  destruct (shared_step strict s ms a s1 I X) as (C1 & I1 & X1); [|exact T|].
+  { intros O. rewrite O in Ca. exact Ca. }
+  destruct (mstep strict ms a) as [ms1 c1] eqn:M. simpl in C1, I1.
+  pose proof (IH s1 ms1 s' I1 X1 Cl H) as C2.
+  destruct (mrun strict ms1 l) as [ms2 c2]. simpl in *. subst. reflexivity.
+Qed.
+
+(* PARTIAL: outside the refuted region the Shared mechanism satisfies the property *)
+Lemma shared_partial strict sched s :
+  exec Shared t_init sched = Some s -> ops_calm Shared t_init sched = true -> mon strict sched = [].
+Proof.
+  intros H C. unfold mon. apply (shared_run strict sched t_init m_init s Inv_init SX_init C H).
+Qed.
+
+(* the hypothesis is satisfiable by a non-trivial Shared run, and the refuting schedule
+   violates it *)
+Definition shared_calm_example : list label :=
+  [LArm 0 60000 None; LAdv 0; LStop (Some 0); LArm 0 10000 None; LAdv 1; LArm 2 5000 (Some 1);
+   LAdv 2; LExpire 2; LFire 2; LDeliver 2; LStop None].
+
+Lemma shared_calm_example_ok :
+  (exists s, exec Shared t_init shared_calm_example = Some s) /\
+  ops_calm Shared t_init shared_calm_example = true /\
+  ops_calm Shared t_init lost_stop_witness = false.
+Proof. split; [eexists; vm_compute; reflexivity|]. split; vm_compute; reflexivity. Qed.
